@@ -31,7 +31,7 @@ ScC == Q(2, "name", 0, TRUE, <<"a", "b", "c">>,
 ScD == Q(2, "fifo", 1, TRUE, <<"a", "b">>,
          [a |-> J("N", 1, <<S("spawn", "p1")>>), b |-> J("N", 2, <<S("spawn", "p2"), S("add", "c")>>), c |-> J("H", 3, <<>>)],
          [p1 |-> P(1, "sig15", TRUE, FALSE, TRUE, FALSE), p2 |-> P(0, "exit0", TRUE, TRUE, TRUE, FALSE)])
-(* thorough: three lanes, five jobs, job chains, three children *)
+(* three lanes, five jobs, job chains, three children (exploration only, see below) *)
 ScE == Q(3, "fifo", 1, TRUE, <<"a", "b", "c">>,
          [a |-> J("N", 1, <<S("add", "d"), S("spawn", "p1")>>), b |-> J("H", 2, <<S("spawn", "p2")>>), c |-> J("N", 3, <<S("cancel", "")>>),
           d |-> J("H", 4, <<S("add", "e")>>), e |-> J("N", 5, <<S("spawn", "p3")>>)],
@@ -55,7 +55,8 @@ ScN == W(Q(2, "fifo", 0, FALSE, <<"a", "b">>,
 LiveQuickScenarios == {ScB, ScL, ScM, ScN}
 LiveThoroughScenarios == {ScA, ScB, ScC, ScD, ScL, ScM}
 QuickScenarios == {ScA, ScB, ScC, ScD, ScN}
-ThoroughScenarios == {ScA, ScB, ScC, ScD, ScE, ScF, ScN, W(ScA)}
+(* ScE is not in any registered set: > 5.1M distinct states at depth 35 when stopped after 25 minutes on a loaded machine *)
+ThoroughScenarios == {ScA, ScB, ScC, ScD, ScF, ScN, W(ScA)}
 VacNotifyScenarios == {ScN}
 ScP == Q(1, "fifo", 0, FALSE, <<"a">>, [a |-> J("N", 1, <<S("add", "b")>>), b |-> J("H", 2, <<>>)], NoProcs)
 VacDrainScenarios == {ScP}
